@@ -127,8 +127,14 @@ def partial_trace_is_contraction(input_mat, sys, dim, result):
         scale = 1 + float(np.abs(x).max()) * max(d)
         dev = float(np.abs(res - exp).max()) / scale if res.shape == exp.shape else float("inf")
         ok = dev <= 1e-9
-    CTX.check("contract:partial_trace", ok, dev=dev, tol=1e-9, sig=("pt", len(d), len(s), len(set(d)) > 1),
-              nt=0 < len(s) < len(d), mech="partial_trace:contraction",
+    mech = "partial_trace:contraction"
+    narrow = x.dtype.kind in "iu" and x.dtype.itemsize < 8
+    if narrow and not ok and res.shape == exp.shape and res.dtype.kind in "iu":
+        bits = 8 * x.dtype.itemsize
+        if bool(np.all((res.astype(object) - exp.astype(object)) % (1 << bits) == 0)):
+            mech = "partial_trace:sums-wrap-in-narrow-integer-type"
+    CTX.check("contract:partial_trace", ok, dev=dev, tol=1e-9, sig=("pt", len(d), len(s), len(set(d)) > 1, str(x.dtype) if narrow else x.dtype.kind),
+              nt=0 < len(s) < len(d), mech=mech,
               detail=None if ok else {"x": x, "sys": s, "dim": d, "got": res, "want": exp})
     return None
 
